@@ -182,6 +182,14 @@ func vTrusted(why string) {}
 // elements s[0:len(s)] (give s[:cap(s)] to include the spare capacity).
 func vModifiesElems[T any](s []T) {}
 
+// vModifiesMap declares that the target may insert, overwrite and delete entries of this one map
+// (and of maps it creates itself); other maps of the same type keep their entries.
+func vModifiesMap[K comparable, V any](m map[K]V) {}
+
+// vFreshMap (postconditions): the map was created by the target during the call; it is none of
+// the maps that existed before.
+func vFreshMap[K comparable, V any](m map[K]V) bool { return m != nil }
+
 // vBorrowed: the buffer is only lent to the target for the duration of the call: no view of it
 // (no sub-slice, no string sharing its bytes) may be stored in memory that outlives the call.
 // Checked at every store of the code under verification; in a contract it also tells callers
